@@ -175,6 +175,9 @@ G("g25", ("case", O("A"), [(("eq", 0), O("X")), (("gt", 5), O("Y"))], C(3)), [("
   [{"A": 9, "Y": 1}, {"A": 0, "X": 2}], ["case"])
 G("g26", ("case", O("A"), [(("eqopt", "T"), O("X")), (("gt", 5), DS("c2", [O("Y")]))]), [("A", "i"), ("T", "i"), ("X", "i"), ("Y", "i")],
   [{"A": 1, "T": 1, "X": 4}, {"A": 9, "T": 1, "Y": 4}], ["case", "nodefault"], "option-dependent condition, no default")
+G("g34", ("case", O("A"), [(("eqopt", "T"), C("hit")), (("eqopt", "U"), O("X", C(0)))], C("miss")),
+  [("A", "i"), ("T", "i"), ("U", "i"), ("X", "i")], [{"A": 1, "T": 1, "U": 2}, {"A": 1, "T": 2, "U": 1, "X": 3}], ["case"],
+  "option-dependent conditions selecting constant branches (nothing but the conditions reads T and U)")
 G("g27", ("case", ("coalesce", [O("A"), O("B")]), [(("eq", 1), O("X"))], O("Y")), [("A", "i"), ("B", "i"), ("X", "i"), ("Y", "i")],
   [{"B": 1, "X": 2}, {"A": 3, "Y": 2}], ["case", "coalesce"], "case-when whose dispatch is a coalesce")
 G("g32", ("case", O("A"), [(("isnone",), O("X")), (("gt", 0), DS("c2", [O("Y")]))], C(3)),
@@ -185,6 +188,8 @@ G("g29", ("coalesce", [("switch", "D", {0: O("X")}), ("switch", "E", {1: O("Y")}
   [{"D": 3, "E": 1, "Y": 2}, {"D": 0, "X": 1}], ["coalesce", "switch", "nodefault"], "coalesce over switches without defaults")
 G("g30", ("coalesce", [DS("m1", [O("A")]), DS("m2", [O("B")]), DS("m3", [])]), [("A", "i"), ("B", "i")], [{"B": 1}, {"A": 2, "B": 1}],
   ["coalesce", "ds"])
+G("g33", ("coalesce", [DS("m1", [O("A")]), O("B")]), [("A", "i"), ("B", "i")], [{"A": 1}, {"B": 2}], ["coalesce", "ds", "partial"],
+  "a dataset member that may raise, followed by a plain option")
 G("g31", ("coalesce", [("optdom", "A", (0, 5)), O("B")]), [("A", "i"), ("B", "i")], [{"A": 9, "B": 1}, {"A": 2}],
   ["coalesce", "domain"], "first member present but outside its domain")
 # --- apply / bind / collections / iterables -------------------------------------------------------------------
